@@ -84,6 +84,14 @@ def check_chunk(col, kind, shapes, G, subtypes, seed, chunk_id=0, transforms=Non
                     b = int(np.nonzero(gots != gotn[1:])[0][0])
                     col.violation(f"{kind}.sliced", dict(case, form="sliced", index=b),
                                   f"slice[1:] position {b}: got {gots[b]} vs unsliced {gotn[1:][b]}")
+                # ---- slices starting on byte boundaries of the validity bitmap
+                for off in (8, 16):
+                    col.count("evaluations", npt + 3 - off)
+                    gs_ = np.asarray(parr_none[off:].intersects(shape))
+                    if (gs_ != gotn[off:]).any():
+                        b = int(np.nonzero(gs_ != gotn[off:])[0][0])
+                        col.violation(f"{kind}.sliced", dict(case, form="sliced", offset=off, index=b),
+                                      f"slice[{off}:] position {b}: got {gs_[b]} vs unsliced {gotn[off:][b]}")
                 # ---- inds
                 expn = np.zeros(npt + 3, dtype=bool)
                 expn[real_pos] = ref
